@@ -112,10 +112,11 @@ def run_family(run, exe, spec, prop, configs, consts_of, wanted_inv, wanted_or, 
         foreign_ls = sorted(({v[0] for v in out["res"]["viols"]} | {x.split()[1].split("|")[0] for x in out["res"].get("soft", []) if len(x.split()) > 1}) - set(wanted_or) - {"O-crash", "O-harness"})
         if out["res"].get("soft"):
             run.note("oracle of another property counted in %s/%s (the replays went on): %s" % (spec, name, out["res"]["soft"][0][:200]))
-        if out["res"]["mismatch"] or foreign_ls:
+        if (out["res"]["mismatch"] or foreign_ls) and mulib.explore_allowed(run):
+            _t_ex = time.time()
             mulib.continue_divergences(run, exe, name, out, set(wanted_or) | {"O-crash"})
             nloc = 20000 if run.tier == "quick" else 300000
-            resx = mulib.run_harness_env(exe, ["random", str(nloc), str(seed() + 7), out["init"], REPLAYS], out["env"])
+            resx = mulib.run_harness_env(exe, ["random", str(nloc), str(seed() + 7), out["init"], REPLAYS], out["env"], timeout=mulib.explore_budget(run), soft=True)
             run.add("evaluations", nloc); run.add("distinct_nontrivial", resx["stats"].get("nontrivial", 0))
             run.cov.setdefault("local_exploration_after_divergence", []).append({"config": name, "runs": nloc, "violations": len(resx["viols"])})
             hit = False
@@ -126,13 +127,14 @@ def run_family(run, exe, spec, prop, configs, consts_of, wanted_inv, wanted_or, 
             if foreign and not hit:
                 # only another property's oracle fired: switch it off and see what the fault does to this property; plain accesses to shared
                 # memory become scheduling points too, since the fault may be a race between plain accesses
-                resy = mulib.run_harness_env(exe, ["random", str(nloc * 10), str(seed() + 8), "plain=1 ignore=%s " % ",".join(foreign) + out["init"], REPLAYS], dict(out["env"], VERIF_IGNORE=",".join(foreign), VERIF_PLAIN="1"))
+                resy = mulib.run_harness_env(exe, ["random", str(nloc * 10), str(seed() + 8), "plain=1 ignore=%s " % ",".join(foreign) + out["init"], REPLAYS], dict(out["env"], VERIF_IGNORE=",".join(foreign), VERIF_PLAIN="1"), timeout=mulib.explore_budget(run), soft=True)
                 run.add("evaluations", nloc * 10)
                 run.cov["local_exploration_after_divergence"].append({"config": name, "runs": nloc * 10, "violations": len(resy["viols"]), "ignoring": foreign})
                 for v in resy["viols"]:
                     if v[0] in wanted_or or v[0] == "O-crash":
                         run.violation("%s|%s|explore %s" % (v[0], v[1], name), v[4], v[5])
             mulib.preemption_bounded(run, exe, "%s/%s" % (spec, name), out["init"], len(conf["progs"]), out["env"], set(wanted_or) | {"O-crash"}, foreign if (foreign and not hit) else [])
+            mulib._explore_spent[0] += time.time() - _t_ex
         try:
             os.unlink(out["sched"])
         except OSError:
